@@ -149,10 +149,12 @@ def install(mods):
             try:
                 return orig_write(filename, exprs)
             finally:
+                nlines = _STATE['in_write']['line']
                 _STATE['in_write'] = None
                 after = read_file(filename)
                 emit('write',
                      seq=seq,
+                     lines=nlines,
                      ld=leaf_digest(exprs),
                      td=None if after is None else text_digest(
                          after.decode('utf-8', 'replace')),
@@ -356,8 +358,14 @@ def install_line_monitors(mods):
     rng_by_pid = {}
     snap_seen = {}
 
+    busy = []
+
     def classify_snapshot(w):
-        cur = read_file(w['file'])
+        busy.append(1)
+        try:
+            cur = read_file(w['file'])
+        finally:
+            busy.pop()
         if cur == w['before']:
             return 'previous' if cur is not None else 'absent'
         if cur == w['expected']:
@@ -416,10 +424,14 @@ def install_line_monitors(mods):
     if snaps:
         def audit(event, args):
             w = _STATE['in_write']
-            if w is None:
+            if w is None or busy:
                 return
             if event in ('open', 'os.rename', 'os.replace', 'os.remove'):
-                st = classify_snapshot(w)
+                busy.append(1)
+                try:
+                    st = classify_snapshot(w)
+                finally:
+                    busy.pop()
                 bump(f'snapshot_{st}')
                 bump('audit_points')
                 if st in ('EMPTY', 'PARTIAL', 'OTHER'):
@@ -443,6 +455,10 @@ def main():
         _EV_FD = os.open(CONFIG['events'],
                          os.O_WRONLY | os.O_APPEND | os.O_CREAT, 0o644)
     sys.argv = ['ddsmt'] + sys.argv[1:]
+    import faulthandler
+    import signal
+    # the harness asks for the stacks of a run that hit its watchdog
+    faulthandler.register(signal.SIGUSR1, all_threads=True)
     from ddsmt import (checker, nodeio, nodes, strategy_ddmin,
                        strategy_hierarchical, mutators, mutator_utils,
                        options, tmpfiles, smtlib)
